@@ -42,6 +42,8 @@ def type_of(layers, i=0, swap=None):
         k = swap[k]
     inner = type_of(layers, i + 1, swap) if i + 1 < len(layers) else None
     if k == "array":
+        if l.get("idx"):        # array storage addressed by a narrower index type (configuration-only programs)
+            return "cb::array<cv::vector_d<%s, %d>, %s>" % (SCALAR[l["t"]], l["m"], {"uint8": "uint8_t", "uint16": "uint16_t", "uint32": "uint32_t"}[l["idx"]])
         return "cb::array<cv::vector_d<%s, %d>>" % (SCALAR[l["t"]], l["m"])
     if k == "constant":
         return "cb::constant<cv::vector_d<%s, %d>, cv::vector_d<%s, %d>>" % (SCALAR[l["ins"]], l["n"], SCALAR[l["t"]], l["m"])
@@ -155,7 +157,7 @@ def gen_config_only(case, path):
     from the reported configurations, construct through the positional helper.  Never looked up."""
     layers = case["layers"]
     depth = len(layers)
-    name = name_of(layers) + "/count=%d" % layers[-1]["count"]
+    name = name_of(layers) + "/count=%d" % layers[-1]["count"] + ("/index=" + layers[-1]["idx"] if layers[-1].get("idx") else "")
     L = ["#define VF_STACK_NAME \"%s\"" % name, "#include \"stack_common.hpp\"", ""]
     for i in range(depth):
         L.append("using L%d = %s;" % (i, type_of(layers, i)))
